@@ -33,6 +33,8 @@ pub struct Installation {
     resolver: Arc<ContentResolver>,
     /// Simple in-memory cache for performance optimization
     cache: Arc<AsyncRwLock<dashmap::DashMap<String, Vec<u8>>>>,
+    /// Whether the indices and archives of the directory have been loaded
+    initialized: std::sync::atomic::AtomicBool,
 }
 
 impl Installation {
@@ -76,6 +78,7 @@ impl Installation {
             archive_manager,
             resolver,
             cache,
+            initialized: std::sync::atomic::AtomicBool::new(false),
         })
     }
 
@@ -385,6 +388,13 @@ impl Installation {
             compress
         );
 
+        // A handle that has not loaded the directory yet must not write on
+        // top of it: the archive position and the buckets of the index have
+        // to be the ones on disk, otherwise the write replaces them
+        if !self.initialized.load(std::sync::atomic::Ordering::Acquire) {
+            self.initialize().await?;
+        }
+
         // Calculate content key from uncompressed data
         let content_key = ContentKey::from_data(&data);
 
@@ -432,6 +442,9 @@ impl Installation {
 
         // Load all archive files (.data in Data/data/)
         self.archive_manager.write().await.open_all().await?;
+
+        self.initialized
+            .store(true, std::sync::atomic::Ordering::Release);
 
         info!("Installation initialization complete");
         Ok(())
